@@ -56,6 +56,7 @@ let finish () =
 
 let handle line =
   match words line with
+  | "RQ" :: _ -> ()   (* judged by drv_req *)
   | "CASE" :: id :: _ -> cur_id := id; ins := []; ons := []; offs := []; errs := []
   | "IN" :: r -> ins := rec_of r :: !ins
   | "ON" :: r -> ons := rec_of r :: !ons
